@@ -1028,6 +1028,61 @@ fn main() {
         println!("router_send_blocks sndtimeo={} {}", sndtimeo, res);
         std::process::exit(0);
       }
+      "handshake_drip" => {
+        // handshake_drip <ivl_ms> <gap_ms> <bytes>: public API, PULL listener with HANDSHAKE_IVL=<ivl_ms>; a raw peer sends one
+        // greeting byte every <gap_ms> (< ivl) for <bytes> bytes, i.e. for longer than the interval, never completing the
+        // handshake. Reports whether the listener closed the connection meanwhile.
+        let ivl: i32 = it.next().unwrap().parse().unwrap();
+        let gap: u64 = it.next().unwrap().parse().unwrap();
+        let nbytes: usize = it.next().unwrap().parse().unwrap();
+        let rt = tokio::runtime::Builder::new_multi_thread().worker_threads(2).enable_all().build().unwrap();
+        let res = rt.block_on(async move {
+          use std::io::{Read, Write};
+          let ctx = rzmq::Context::new().unwrap();
+          let pull = ctx.socket(rzmq::SocketType::Pull).unwrap();
+          pull.set_option(rzmq::socket::options::HANDSHAKE_IVL, ivl).await.unwrap();
+          pull.bind("tcp://127.0.0.1:0").await.unwrap();
+          let ep = String::from_utf8(pull.get_option(rzmq::socket::options::LAST_ENDPOINT).await.unwrap()).unwrap();
+          let addr = ep.trim_start_matches("tcp://").to_string();
+          let mut greeting = vec![0xFFu8, 0, 0, 0, 0, 0, 0, 0, 0, 0x7F, 3, 1];
+          let mut mech = b"NULL".to_vec();
+          mech.resize(20, 0);
+          greeting.extend_from_slice(&mech);
+          greeting.push(0);
+          greeting.extend_from_slice(&[0u8; 31]);
+          tokio::task::spawn_blocking(move || {
+            let mut s = std::net::TcpStream::connect(addr).unwrap();
+            s.set_nodelay(true).ok();
+            s.set_read_timeout(Some(Duration::from_millis(5))).ok();
+            let t0 = Instant::now();
+            let mut closed_after = None;
+            for i in 0..nbytes {
+              if s.write_all(&greeting[i..i + 1]).is_err() {
+                closed_after = Some(t0.elapsed().as_millis());
+                break;
+              }
+              // has the listener hung up? (read returns 0 on FIN; the listener's own greeting bytes are just skipped)
+              let mut buf = [0u8; 128];
+              match s.read(&mut buf) {
+                Ok(0) => {
+                  closed_after = Some(t0.elapsed().as_millis());
+                  break;
+                }
+                _ => {}
+              }
+              std::thread::sleep(Duration::from_millis(gap));
+            }
+            (closed_after, t0.elapsed().as_millis())
+          })
+          .await
+          .unwrap()
+        });
+        match res.0 {
+          Some(ms) => println!("handshake_drip ivl={}ms listener closed the connection after {} ms", ivl, ms),
+          None => println!("handshake_drip ivl={}ms connection STILL OPEN after {} ms of dripping, handshake incomplete", ivl, res.1),
+        }
+        std::process::exit(0);
+      }
       "last_message_then_close" => {
         // public API only: a PULL socket listens on TCP; a raw PUSH peer completes the handshake, later writes <n> data
         // frames in one write and closes the connection at once (data and FIN reach the reader together).
